@@ -11,7 +11,7 @@
     implementation of that bookkeeping contains no data race is a run-time fact: it is observed by the harness
     with the Go race detector (zero reports on the main stream), not proved. *)
 From Coq Require Import List ZArith Bool Arith.
-From Verif Require Import Conc.Machine Conc.Select Conc.Capture Conc.Model Conc.Proofs.
+From Verif Require Import Conc.Machine Conc.Select Conc.Capture Conc.Closure Conc.Model Conc.Proofs.
 From Verif Require Import gen.Captured_gen.
 Import ListNotations.
 
@@ -160,6 +160,28 @@ Print Assumptions C08_select_shared_refuted.
 Theorem C08_statement_shared_refuted : ~ statement_for Shared.
 Proof. exact statement_shared_refuted. Qed.
 Print Assumptions C08_statement_shared_refuted.
+
+(** the frame slot of a function literal (getFunc). Without the write-back every go statement calls the
+    closure of its own iteration, under every schedule and for every number of iterations ... *)
+Theorem C08_getfunc_no_writeback_full :
+  forall n sched, calls_ok (calls (lit_run false sched (lit_init n))).
+Proof. exact getfunc_no_writeback_loop. Qed.
+Print Assumptions C08_getfunc_no_writeback_full.
+
+(** ... with the write-back of the code today (region getfunc-writeback) a go statement can find the zero
+    Value (host crash "call of nil function") or the closure of an older iteration in the slot. *)
+Theorem C08_getfunc_writeback_refuted :
+  calls (lit_run true [0; 0; 0; 1; 0] (lit_init 2)) = [(0, Some 0); (1, None)]
+  /\ calls (lit_run true [0; 0; 0; 0; 0; 2; 0] (lit_init 3)) = [(0, Some 0); (1, Some 1); (2, Some 0)]
+  /\ calls (lit_run false [0; 0; 0; 1; 0] (lit_init 2)) = [(0, Some 0); (1, Some 1)]
+  /\ calls (lit_run false [0; 0; 0; 0; 0; 2; 0] (lit_init 3)) = [(0, Some 0); (1, Some 1); (2, Some 2)].
+Proof. exact getfunc_writeback_refuted. Qed.
+Print Assumptions C08_getfunc_writeback_refuted.
+
+Theorem C08_getfunc_writeback_statement_refuted :
+  ~ (forall n sched, calls_ok (calls (lit_run true sched (lit_init n)))).
+Proof. exact getfunc_writeback_not_ok. Qed.
+Print Assumptions C08_getfunc_writeback_statement_refuted.
 
 (** second finding (sequential, shows in a concurrent template): the operand expression of a send clause
     is not evaluated; the faithful outcome model differs from Go's closed form. *)
